@@ -363,6 +363,24 @@ Proof.
   - apply (never_5xx semver marshal cfg m method size_ok decoded Hs Hx).
 Qed.
 
+(* malformed framing below the HTTP API: refused with 4xx, never 5xx *)
+Theorem wire_expected semver marshal cfg m method declared framing_ok size_ok decoded :
+  upload_store m ->
+  (forall r, decoded = Some r -> g_string (r_xs r) = true) ->
+  handle_wire semver marshal cfg method declared framing_ok size_ok decoded m =
+    expected_wire semver marshal cfg method framing_ok size_ok decoded m /\
+  fst (handle_wire semver marshal cfg method declared framing_ok size_ok decoded m) <> S5xx.
+Proof.
+  intros Hs Hx. unfold handle_wire, expected_wire.
+  destruct framing_ok; simpl.
+  - rewrite andb_false_r. apply (http_never_5xx semver marshal cfg m method declared size_ok decoded Hs Hx).
+  - destruct (beq method post) eqn:E; simpl.
+    + split; [reflexivity | discriminate].
+    + assert (Hm : method <> post) by (intros ->; rewrite beq_refl in E; discriminate).
+      unfold handle_http. rewrite (wrong_method_refused semver marshal cfg method size_ok decoded m Hm).
+      split; [reflexivity | discriminate].
+Qed.
+
 (* the former deviation: a null program entry is now refused like any other
    invalid report *)
 Definition null_report : report :=
